@@ -438,7 +438,8 @@ pub fn typed(rep: &mut Report) {
                     acc.bump("mismatch-located-by-key-path");
                     if e.message.trim().is_empty() {
                         acc.viol("U-typed", label, None, "error with an empty message".into());
-                    } else if !rel_path.is_empty() && !e.shown.contains(&format!("in `{}", rel_path)) {
+                    } else if !rel_path.is_empty() && !e.shown.contains(&format!("in `{}", rel_path)) && !(e.span.is_some() && parse_line_col(&e.shown).is_some()) {
+                        // (located by span + rendered position instead: the route attached a text after all - also fine)
                         acc.viol("U-typed", label, None, format!("the source text is not available on this route and the error does not carry the key path `{}`: {:?}", rel_path, e.shown));
                     }
                 }
